@@ -1,5 +1,5 @@
 """C02 — Leaf coefficients solve the ridge system of the state that is stored."""
-import json, contextlib
+import json, contextlib, math
 import numpy as np
 import torch
 import mpmath as mp
@@ -138,7 +138,9 @@ def run(ck):
                         kv = orc.kernel_closed_form(kn, C[a], C[b], mat, **par) + (lam if a == b else 0)
                         acc += kv * mp.mpf(float(W[b, o_]))
                     worst = max(worst, abs(float(acc - mp.mpf(float(Yd[a, o_])))))
-            tol2 = tol * 20 + 1e-9 * scale
+            # the memory-light kernel gets its distances from ||x||^2 - 2 x.z + ||z||^2: cancellation leaves an absolute error of about
+            # sqrt(u) in small distances (the property itself says 'up to the rounding error of the distance computation')
+            tol2 = tol * 20 + 1e-9 * scale + (n * math.sqrt(u) * scale if kn == 'l2_light' else 0.0)
             ck.count('closed-form Gram residual checked')
             if not (worst <= tol2):
                 ck.violation(f'with the Gram matrix of the documented closed form the residual is {worst:.3g} > {tol2:.3g} on {desc}',
